@@ -13,7 +13,7 @@
   * `Range<i32>::clone` is the range; `Iterator::find` on such a (temporary) range is the first value of
     `start .. end` in ascending order that satisfies the predicate (`EG.irange` lists these values); the advanced
     temporary is dropped. `Iterator::find_map` on a range PLACE advances it (`range_i32_find_map`).
-  * `Option::map` is `Option.map`.
+  * `Option::map` is `Option.map`, `Option::unwrap_or_else` evaluates its closure on `None`.
   Every definition is an `abbrev` (see the note in RectSrcPrelude). Import-free apart from EG.Basic / EG.Model.
 -/
 import EG.Model.RectSrcPrelude
@@ -59,5 +59,10 @@ abbrev range_i32_find_map {β : Type} (r : RangeI32) (f : Int → Option β) : O
   if r.start < r.end_ then range_i32_find_map_loop f (r.end_ - r.start).toNat r.start r.end_ else (none, r)
 /-- `Option::map` -/
 abbrev option_map {α β : Type} (o : Option α) (f : α → β) : Option β := o.map f
+/-- `Option::unwrap_or_else` (the closure takes no argument) -/
+abbrev option_unwrap_or_else {α : Type} (o : Option α) (f : Unit → α) : α :=
+  match o with
+  | some v => v
+  | none => f ()
 
 end EG.CurveSrcPrelude
